@@ -3,13 +3,13 @@
 # Confirms in the scratch worktree /tmp/confirm/repo that the seeded change (1) compiles, (2) leaves
 # the existing test suite green, (3) makes its demonstration fail, and that (4) the demonstration
 # passes without the change. Appends one line to /tmp/confirm/results.txt.
-ID=$1; N=$2; O=/tmp/s/$ID/out; W=/tmp/confirm/repo
+ID=$1; N=$2; O=${SEED_ROOT:-/tmp/s}/$ID/out; W=/tmp/confirm/repo; TAG=${SEED_TAG:-}
 cd $W || exit 2
 git checkout -q -- . && git clean -fdq
-git apply "$O/patch$N.diff" || { echo "$ID-$N patch-does-not-apply" >> /tmp/confirm/results.txt; exit 1; }
+git apply "$O/patch$N.diff" || { echo "$ID$TAG-$N patch-does-not-apply" >> /tmp/confirm/results.txt; exit 1; }
 if [ -f "$O/demo$N.rs" ]; then cp "$O/demo$N.rs" crates/lib/tests/seeded_demo.rs; fi
 out=$(CARGO_BUILD_JOBS=8 cargo test --workspace --no-fail-fast --offline -- --test-threads 8 2>&1 | grep -E "^test result|^error\[|could not compile|Running|failed to")
-if echo "$out" | grep -qE "^error\[|could not compile"; then echo "$ID-$N does-not-compile" >> /tmp/confirm/results.txt; git checkout -q -- .; git clean -fdq; exit 1; fi
+if echo "$out" | grep -qE "^error\[|could not compile"; then echo "$ID$TAG-$N does-not-compile" >> /tmp/confirm/results.txt; git checkout -q -- .; git clean -fdq; exit 1; fi
 # which test binaries failed
 failed=$(echo "$out" | awk '/Running/ {cur=$0} /test result: FAILED/ {print cur}' | sed 's/.*Running //' | tr '\n' ' ')
 passed=$(echo "$out" | awk '/test result/ {p+=$4} END {print p}')
@@ -29,4 +29,4 @@ else
   cargo build -q -p grass --offline 2>/dev/null; if bash "$O/demo$N.sh" $W >/dev/null 2>&1; then demo_without=passes; else demo_without=FAILS; fi
 fi
 git checkout -q -- . && git clean -fdq
-echo "$ID-$N compiles=yes existing_suite_failures=$others tests_passed=$passed demo_with_change=$demo_with demo_without_change=$demo_without" >> /tmp/confirm/results.txt
+echo "$ID$TAG-$N compiles=yes existing_suite_failures=$others tests_passed=$passed demo_with_change=$demo_with demo_without_change=$demo_without" >> /tmp/confirm/results.txt
